@@ -74,6 +74,7 @@ class Sim:
         self.stats: dict = {}
         self.probes: dict = {}
         self.cases: set = set()
+        self._pending_abort = None
         self.known_hits: dict = {}
         self.word: list = []
         self.step_no = -1
@@ -152,6 +153,11 @@ class Sim:
             return None
         self.violations.append(v)
         return v
+
+    def _defer(self, reason, detail=""):
+        """Guard that must not pre-empt the own oracles of this step: the run is ended
+        after they have been evaluated on the state the library produced."""
+        self._pending_abort = (reason, detail)
 
     def guard(self, reason, detail=""):
         """A condition that makes the rest of the run meaningless for this check but is
@@ -246,6 +252,15 @@ class Sim:
     # ---------------------------------------------------------------- step
     def step(self, op: dict):
         self.step_no += 1
+        if op["op"] == "first_accepted":
+            # systematic layer: execute candidate edits until one is accepted
+            self.step_no -= 1
+            out = {"cls": "skipped"}
+            for cand in op["tries"]:
+                out = self.step(cand)
+                if out.get("cls") == "accepted" or self.violations:
+                    break
+            return out
         tr = self.tracks
         kind = op["op"]
         handler = getattr(self, "op_" + kind)
@@ -270,7 +285,7 @@ class Sim:
         self.pre = pre
         out = {"cls": "skipped"}
         old = signal.signal(signal.SIGALRM, _alarm_handler)
-        signal.alarm(STEP_ALARM_S)
+        signal.alarm(STEP_ALARM_S * (60 if op.get("sweep") else 1))
         try:
             out = handler(op) or {"cls": "skipped"}
         except StepTimeout:
@@ -280,6 +295,7 @@ class Sim:
         finally:
             signal.alarm(0)
             signal.signal(signal.SIGALRM, old)
+        out.setdefault("cls", "returned")
         self.stat(f"op.{kind}.{out['cls']}")
         if out["cls"] == "skipped":
             self.log.append((self.step_no, kind, "skipped"))
@@ -432,6 +448,9 @@ class Sim:
         if self.active("C10"):
             self._check_c10(op, out, pre)
         self._account(op, out, pre, post, is_edit, changed_state)
+        if self._pending_abort and not self.violations:
+            reason, detail = self._pending_abort
+            self.guard(reason, detail)
 
     def _account(self, op, out, pre, post, is_edit, changed_state):
         """distinct_nontrivial bookkeeping, one rule per property (see evidence.rule)."""
@@ -501,13 +520,13 @@ class Sim:
                 if own:
                     self.violate("C02", "C02.timeline.return", f"{kind}() returned {val!r} although the timeline has a state to step to", op)
                     return
-                self.guard("history_diverged")
+                return self._defer("history_diverged")
             diff = observe.canon_diff(snap, post, self._keys_ok(ep))
             if diff:
                 if own:
                     self.violate("C02", f"C02.timeline.{kind}", f"state after {kind}() differs from timeline state {tl.p}: {diff[:3]}", op)
                     return
-                self.guard("history_diverged", str(diff[:2]))
+                return self._defer("history_diverged", str(diff[:2]))
             self.count("h_" + kind + "_step")
             if kind == "undo" and tl.p < len(tl.T) - 2:
                 self.count("h_undo_deep")
@@ -517,12 +536,12 @@ class Sim:
                 if own:
                     self.violate("C02", "C02.timeline.return", f"{kind}() returned {val!r} with nothing to step to", op)
                     return
-                self.guard("history_diverged")
+                return self._defer("history_diverged")
             if post != pre["canon"]:
                 if own:
                     self.violate("C02", f"C02.timeline.{kind}", f"{kind}() with nothing to step to changed the state", op)
                     return
-                self.guard("history_diverged")
+                return self._defer("history_diverged")
         if own:
             self.stat("C02.eval")
 
@@ -1145,6 +1164,18 @@ class Sim:
         if op.get("order") == "rev":
             updated.reverse()
         saved = fr.copy()
+        saved2 = None
+        if op.get("invalid") == "two_frames" and self.T > 1 and value != 0:
+            # invalid request: one stroke spanning two frames (the library documents one
+            # time point per update); the second frame's group is appended last
+            t2 = (t + 1) % self.T
+            fr2 = seg[t2]
+            mask2 = mask & (fr2 != value)
+            if mask2.any():
+                saved2 = (t2, mask2, fr2.copy())
+                for old in [int(x) for x in np.unique(fr2[mask2]).tolist()]:
+                    idx = np.nonzero(mask2 & (fr2 == old))
+                    updated.append(((np.full(len(idx[0]), t2), *idx), old))
         tid = self.pick_track(op["track"])
         force = bool(op.get("force"))
         # classification
@@ -1174,6 +1205,9 @@ class Sim:
             tags.append("over_several")
         # paint first (caller side of the protocol)
         fr[mask] = value
+        if saved2 is not None:
+            seg[saved2[0]][saved2[1]] = value
+            tags.append("invalid_two_frames")
         painted = seg.copy()
         named_nodes = {value} | set(part) | set(erased_all)
         named_nodes.discard(0)
@@ -1189,6 +1223,8 @@ class Sim:
         if out["cls"] != "accepted":
             # caller restores the painted pixels
             fr[mask] = saved[mask]
+            if saved2 is not None:
+                seg[saved2[0]][saved2[1]] = saved2[2][saved2[1]]
             if part or erased_all:
                 self.count("pt_refused_after_overwrite")
         else:
